@@ -217,19 +217,34 @@ func testC12(t *testing.T, redisMode bool) {
 					_, _, patchTimedOut = w.env.PatchDocument(&model.PatchMessage{Collection: w.col, Key: docKey, Json: fmt.Sprintf(`{"p":%d}`, r)}, l1Deadline)
 				}()
 			}
+			var regErrs []error
+			var regMu sync.Mutex
 			if round.Reg {
-				wg.Add(1)
-				go func() {
-					defer wg.Done()
-					<-start
-					pc := w.env.NewUnregisteredPackClient(w.col, fmt.Sprintf("late%d", r))
-					if err := pc.Register(l1Deadline); err != nil && strings.Contains(err.Error(), "did not answer") {
-						regTimedOut = true
-					}
-				}()
+				// a new client registers while the others sync - with 1-3 simultaneous registration calls (a client
+				// that re-sends its registration, two processes started with one identity): in every one-at-a-time
+				// order each of them succeeds (the first one creates the registration, the others refresh it)
+				pc := w.env.NewUnregisteredPackClient(w.col, fmt.Sprintf("late%d", r))
+				for g := 0; g < 1+r%3; g++ {
+					wg.Add(1)
+					go func() {
+						defer wg.Done()
+						<-start
+						if err := pc.Register(l1Deadline); err != nil {
+							if strings.Contains(err.Error(), "did not answer") {
+								regTimedOut = true
+							}
+							regMu.Lock()
+							regErrs = append(regErrs, err)
+							regMu.Unlock()
+						}
+					}()
+				}
 			}
 			close(start)
 			wg.Wait()
+			if len(regErrs) > 0 && !regTimedOut {
+				c.failf("round %d: %d simultaneous registrations of one new client: %d of them were refused (each succeeds in every one-at-a-time order): %v", r, 1+r%3, len(regErrs), regErrs[0])
+			}
 			if patchTimedOut || regTimedOut || badTimedOut {
 				c.failf("round %d: a concurrent patch / registration / refused create was never answered (patch=%v registration=%v refused-create=%v)", r, patchTimedOut, regTimedOut, badTimedOut)
 			}
